@@ -37,21 +37,28 @@ enum { MODE_ORDER, MODE_RB, MODE_CLEAR };
 static int mode;
 static int mc_mode;             /* "<mode>-mc": reduced workload for the valgrind memcheck pass (config rel-plain) */
 
+/* An element carries two embedded nodes ("offset classes").  A tree of class c links elements through rn[c]
+ * (bintree cases use rn[c].n only).  In "mixed" scopes tree 0 starts with class 0 and tree 1 with class 1, so an
+ * element can be held by both trees at once and the `off` members of the tree objects become observable
+ * (swap must carry them along).  All other scopes use class 0 only. */
 struct elem {
     uint32_t magic;
     int id, key;
-    int where;                  /* tree index, -1 = not in a tree */
-    int midx;                   /* index in M[where] */
+    int where[2];               /* per class: tree index, -1 = not in a tree through that node */
+    int midx[2];                /* per class: index in M[where[c]] */
     int vis;                    /* traversal state: 0 none, 1 PRE, 2 MID, 3 done */
     uint32_t stamp;             /* walker visit stamp */
     uint64_t pad0;
-    struct cstl_rbtree_node rn; /* bintree cases use rn.n only */
+    struct cstl_rbtree_node rn[2];
     uint64_t pad1;
 };
+#define RN_OFF(c) (offsetof(struct elem, rn) + (size_t)(c) * sizeof(struct cstl_rbtree_node))
+#define BN_OFF(c) (RN_OFF(c) + offsetof(struct cstl_rbtree_node, n))
 
 static struct elem *pool[MAXE];
 static int freeids[MAXE], nfree;
-static int npool, nkeys, ntrees, is_rb;
+static int npool, nkeys, ntrees, is_rb, mixed;
+static int cls[MAXT];                   /* offset class each tree object currently uses */
 static struct cstl_bintree *BT[MAXT];
 static struct cstl_rbtree *RT[MAXT];
 static struct elem *M[MAXT][MAXE];
@@ -81,13 +88,13 @@ static const char *TK(const char *suffix)
     snprintf(b, sizeof(buf[0]), "%s.%s", is_rb ? "rbtree" : "bintree", suffix);
     return b;
 }
-#define TYPE_NAME (is_rb ? "rbtree" : "bintree")
 
 static struct elem *new_elem(int id)
 {
     struct elem *e = vrt_alloc(sizeof(*e));
     memset(e, 0x5e, sizeof(*e));
-    e->magic = MAGIC; e->id = id; e->key = -2; e->where = -1; e->midx = -1; e->vis = 0; e->stamp = 0;
+    e->magic = MAGIC; e->id = id; e->key = -2; e->where[0] = e->where[1] = -1; e->midx[0] = e->midx[1] = -1;
+    e->vis = 0; e->stamp = 0;
 #ifdef HAVE_MEMCHECK_H
     /* the embedded node starts out undefined: memcheck reports any use the library makes of it before writing it */
     VALGRIND_MAKE_MEM_UNDEFINED(&e->rn, sizeof(e->rn));
@@ -98,11 +105,15 @@ static int is_elem(const struct elem *e)
 {
     return e != NULL && e->magic == MAGIC && e->id >= 0 && e->id < npool && pool[e->id] == e;
 }
-static inline struct elem *elem_of(const struct cstl_bintree_node *n)
+static inline struct elem *elem_of(const struct cstl_bintree_node *n, int c)
 {
-    return (struct elem *)((char *)n - offsetof(struct elem, rn.n));
+    return (struct elem *)((char *)n - BN_OFF(c));
 }
-static inline int col(const struct cstl_bintree_node *n) { return (int)elem_of(n)->rn.c; }
+static inline int col(const struct cstl_bintree_node *n)
+{
+    return (int)((const struct cstl_rbtree_node *)((const char *)n - offsetof(struct cstl_rbtree_node, n)))->c;
+}
+#define HELD(e, t) ((e)->where[cls[t]] == (t))
 static inline struct cstl_bintree *bt_of(int t) { return is_rb ? &RT[t]->t : BT[t]; }
 
 static int cmp_key(const void *a, const void *b, void *p)
@@ -180,23 +191,26 @@ static int t_foreach(int t, cstl_bintree_const_visit_func_t *v, void *p, int rev
 
 /* ---- state ---- */
 #define SCOPE(rb, nt, nk, np) ((rb) | (nt) << 1 | (nk) << 3 | (np) << 16)
+#define SCOPE_MIXED (1 << 29)
 static void st_create(int scope)
 {
     int i, t;
     is_rb = scope & 1; ntrees = (scope >> 1) & 3; nkeys = (scope >> 3) & 0x1fff; npool = (scope >> 16) & 0x1fff;
+    mixed = (scope >> 29) & 1;
     for (i = 0; i < npool; i++) pool[i] = new_elem(i);
     nfree = 0;
     for (i = npool - 1; i >= 0; i--) freeids[nfree++] = i;
     probe = new_elem(-1);
     for (t = 0; t < ntrees; t++) {
+        cls[t] = mixed ? (t & 1) : 0;
         if (is_rb) {
             RT[t] = vrt_alloc(sizeof(*RT[t]));
             memset(RT[t], 0x5e, sizeof(*RT[t]));
-            cstl_rbtree_init(RT[t], cmp_key, &cmp_token, offsetof(struct elem, rn));
+            cstl_rbtree_init(RT[t], cmp_key, &cmp_token, RN_OFF(cls[t]));
         } else {
             BT[t] = vrt_alloc(sizeof(*BT[t]));
             memset(BT[t], 0x5e, sizeof(*BT[t]));
-            cstl_bintree_init(BT[t], cmp_key, &cmp_token, offsetof(struct elem, rn.n));
+            cstl_bintree_init(BT[t], cmp_key, &cmp_token, BN_OFF(cls[t]));
         }
         Mn[t] = 0;
         memset(cnt[t], 0, (nkeys + 2) * sizeof(cnt[t][0]));
@@ -213,22 +227,47 @@ static void st_destroy(void)
 }
 static void model_add(int t, struct elem *e)
 {
-    e->where = t; e->midx = Mn[t]; M[t][Mn[t]++] = e; cnt[t][e->key + 1]++;
+    const int c = cls[t];
+    e->where[c] = t; e->midx[c] = Mn[t]; M[t][Mn[t]++] = e; cnt[t][e->key + 1]++;
 }
 static void model_del(int t, struct elem *e)
 {
+    const int c = cls[t];
     struct elem *last = M[t][--Mn[t]];
-    M[t][e->midx] = last; last->midx = e->midx;
-    cnt[t][e->key + 1]--; e->where = -1; e->midx = -1;
+    M[t][e->midx[c]] = last; last->midx[c] = e->midx[c];
+    cnt[t][e->key + 1]--; e->where[c] = -1; e->midx[c] = -1;
 }
-/* an element that left the tree is poisoned and freed: any later access by the library is a use-after-free */
-static void recycle(struct elem *e)
+/* pick the element for an insert of `key` into tree t (deterministic: lowest id).  Mixed scopes: an element
+ * already held by the other tree through its other node qualifies when it carries the same key (preferred, so
+ * that sharing is the normal case), otherwise an element held by no tree. */
+static struct elem *take_elem(int t, int key)
+{
+    int i;
+    if (!mixed) return nfree > 0 ? pool[freeids[--nfree]] : NULL;
+    for (i = 0; i < npool; i++)
+        if (pool[i]->where[cls[t]] < 0 && pool[i]->where[!cls[t]] >= 0 && pool[i]->key == key) return pool[i];
+    for (i = 0; i < npool; i++)
+        if (pool[i]->where[0] < 0 && pool[i]->where[1] < 0) return pool[i];
+    return NULL;
+}
+/* an element that left a tree (already removed from the model) is poisoned and freed: any later access by the
+ * library is a use-after-free.  If it is still held by the other tree through its other node only the node
+ * that left is poisoned. */
+static void recycle(struct elem *e, int c)
 {
     const int id = e->id;
+    if (e->where[!c] >= 0) {
+        memset(&e->rn[c], 0xa5, sizeof(e->rn[c]));
+#ifdef HAVE_MEMCHECK_H
+        VALGRIND_MAKE_MEM_UNDEFINED(&e->rn[c], sizeof(e->rn[c]));
+#endif
+        VRT_COUNT("recycle.node-only.still-in-other-tree");
+        return;
+    }
     memset(e, 0xa5, sizeof(*e));
     vrt_free(e);
     pool[id] = new_elem(id);
-    freeids[nfree++] = id;
+    if (!mixed) freeids[nfree++] = id;
 }
 
 /* ---- traversal monitor ---- */
@@ -244,9 +283,9 @@ static int visit_cb(const void *ev, cstl_bintree_visit_order_t ord, void *p)
     VRT_CHECK(!w->stopped, TK("foreach.continued-after-stop"),
               "%s traversal made callback #%d after the visitor returned %d at #%d", w->rev ? "REV" : "FWD",
               w->n, w->stop_val, w->stop_at);
-    VRT_CHECK(is_elem(x) && x->where == w->t, TK("foreach.non-member"),
+    VRT_CHECK(is_elem(x) && HELD(x, w->t), TK("foreach.non-member"),
               "%s traversal visited something that is not a held element of tree %d", w->rev ? "REV" : "FWD", w->t);
-    leaf = x->rn.n.l == NULL && x->rn.n.r == NULL;
+    leaf = x->rn[cls[w->t]].n.l == NULL && x->rn[cls[w->t]].n.r == NULL;
     switch (ord) {
     case CSTL_BINTREE_VISIT_ORDER_PRE:
         VRT_CHECK(x->vis == 0, TK("foreach.bracket"), "PRE visit of e%d in visit state %d", x->id, x->vis);
@@ -330,8 +369,8 @@ static int walk(const struct cstl_bintree_node *n, const struct cstl_bintree_nod
     w->count++;
     VRT_CHECK(w->count <= Mn[w->t], WKEY(w, "count"), "more than %d nodes reachable from the root of tree %d",
               Mn[w->t], w->t);
-    e = elem_of(n);
-    VRT_CHECK(is_elem(e) && e->where == w->t, WKEY(w, "non-member"), "reachable node is not a held element");
+    e = elem_of(n, cls[w->t]);
+    VRT_CHECK(is_elem(e) && HELD(e, w->t), WKEY(w, "non-member"), "reachable node is not a held element");
     VRT_CHECK(e->stamp != w->stamp, WKEY(w, "node-twice"), "e%d reachable along two paths", e->id);
     e->stamp = w->stamp;
     VRT_CHECK(n->p == par, WKEY(w, "parent-link"), "e%d (depth %d): parent link does not point at its parent",
@@ -341,7 +380,7 @@ static int walk(const struct cstl_bintree_node *n, const struct cstl_bintree_nod
                   "e%d key %d outside [%d,%d] demanded by its ancestors", e->id, e->key, lo, hi);
     if (depth > w->maxd) w->maxd = depth;
     if (w->rules) {
-        c = (int)e->rn.c;
+        c = col(n);
         VRT_CHECK(c == RED || c == BLACK, "rbtree.rules.colour-invalid", "e%d colour field %d", e->id, c);
         if (c == RED) {
             VRT_CHECK(n->l == NULL || col(n->l) != RED, "rbtree.rules.red-red", "red e%d has a red left child", e->id);
@@ -421,7 +460,7 @@ static const struct cstl_bintree_node *predict_find(int t, int key)
     const struct cstl_bintree_node *n = bt_of(t)->root;
     int guard = Mn[t] + 1;
     while (n != NULL && guard-- > 0) {
-        const int k = elem_of(n)->key;
+        const int k = elem_of(n, cls[t])->key;
         if (key == k) return n;
         n = key < k ? n->l : n->r;
     }
@@ -430,27 +469,27 @@ static const struct cstl_bintree_node *predict_find(int t, int key)
 static const char *classify_erase(int t, int key, struct eclass *c)
 {
     const struct cstl_bintree_node *n = predict_find(t, key), *y, *x, *p, *w, *w2, *near, *far;
-    const char *cls;
+    const char *kind;
     int nch, side, level, guard = 64;
     c->n = 0; c->victim = NULL;
     if (n == NULL) return "absent";
-    c->victim = elem_of(n);
+    c->victim = elem_of(n, cls[t]);
     nch = (n->l != NULL) + (n->r != NULL);
     y = n;
     if (nch == 2) {
         int deeper = 0;
         for (y = n->r; y->l != NULL && guard-- > 0; y = y->l) deeper = 1;
-        cls = deeper ? "two-children.succ-deeper" : "two-children.succ-is-child";
+        kind = deeper ? "two-children.succ-deeper" : "two-children.succ-is-child";
     } else {
-        cls = nch ? "one-child" : "leaf";
+        kind = nch ? "one-child" : "leaf";
     }
-    ecls_add(c, "erase.node.%s%s", cls, n->p == NULL ? ".root" : "");
-    if (mode != MODE_RB) return cls;
+    ecls_add(c, "erase.node.%s%s", kind, n->p == NULL ? ".root" : "");
+    if (mode != MODE_RB) return kind;
     /* y is the position physically removed, x its only child */
     x = y->l != NULL ? y->l : y->r;
-    if (col(y) == RED) { ecls_add(c, "erase.rb.n%d.removed-red", nch); ecls_add(c, "erase.rb.removed-red"); return cls; }
-    if (x != NULL) { ecls_add(c, "erase.rb.n%d.removed-black.child-red", nch); ecls_add(c, "erase.rb.removed-black.child-red"); return cls; }
-    if (y->p == NULL) { ecls_add(c, "erase.rb.removed-black.last-node"); return cls; }
+    if (col(y) == RED) { ecls_add(c, "erase.rb.n%d.removed-red", nch); ecls_add(c, "erase.rb.removed-red"); return kind; }
+    if (x != NULL) { ecls_add(c, "erase.rb.n%d.removed-black.child-red", nch); ecls_add(c, "erase.rb.removed-black.child-red"); return kind; }
+    if (y->p == NULL) { ecls_add(c, "erase.rb.removed-black.last-node"); return kind; }
     /* a black leaf position disappears: follow the textbook repair loop upwards */
     for (level = 0, p = y->p; level < 64; level++) {
         int nr, fr, wred;
@@ -478,7 +517,7 @@ static const char *classify_erase(int t, int key, struct eclass *c)
         if (!wred && !nr && !fr && col(p) == BLACK && p->p != NULL) { y = p; p = p->p; continue; }
         break;
     }
-    return cls;
+    return kind;
 }
 static void ecls_commit(const struct eclass *c)
 {
@@ -489,14 +528,14 @@ static void classify_insert(int t, int key)
 {
     const struct cstl_bintree_node *n = bt_of(t)->root, *par = NULL, *g, *u;
     int guard = Mn[t] + 1, pside, nside;
-    while (n != NULL && guard-- > 0) { par = n; n = key < elem_of(n)->key ? n->l : n->r; }
+    while (n != NULL && guard-- > 0) { par = n; n = key < elem_of(n, cls[t])->key ? n->l : n->r; }
     if (par == NULL) { VRT_COUNT("insert.rb.into-empty"); return; }
     if (col(par) == BLACK) { VRT_COUNT("insert.rb.parent-black"); return; }
     g = par->p;
     if (g == NULL) return;
     pside = g->l == par ? 0 : 1;
     u = pside == 0 ? g->r : g->l;
-    nside = key < elem_of(par)->key ? 0 : 1;
+    nside = key < elem_of(par, cls[t])->key ? 0 : 1;
     if (u != NULL && col(u) == RED) VRT_COUNT("insert.rb.parent-red.uncle-red");
     else if (nside == pside) VRT_COUNT("insert.rb.parent-red.uncle-black.outer");
     else VRT_COUNT("insert.rb.parent-red.uncle-black.inner");
@@ -509,11 +548,12 @@ static void clear_cb(void *ev, void *p)
     struct elem *x = ev;
     VRT_CHECK(p == (void *)&clear_seen, TK("clear.priv"), "clear callback got priv %p", p);
     VRT_CHECK(x->magic == MAGIC, TK("clear.non-element"), "clear callback for a non-element or for an element twice");
-    VRT_CHECK(is_elem(x) && x->where == clear_tree, TK("clear.non-member"),
+    VRT_CHECK(is_elem(x) && HELD(x, clear_tree), TK("clear.non-member"),
               "clear callback for e%d which is not held by tree %d", x->id, clear_tree);
     clear_seen++;
     cnt[clear_tree][x->key + 1]--;
-    recycle(x);
+    x->where[cls[clear_tree]] = -1; x->midx[cls[clear_tree]] = -1;
+    recycle(x, cls[clear_tree]);
     VRT_COUNT("clear.handed-over");
 }
 
@@ -521,7 +561,7 @@ static void check_par(int t, const void *par, const char *what)
 {
     if (par != NULL) {
         const struct elem *pe = par;
-        VRT_CHECK(is_elem(pe) && pe->where == t, TK("find.par-not-member"),
+        VRT_CHECK(is_elem(pe) && HELD(pe, t), TK("find.par-not-member"),
                   "find (%s) reported a parent that is not a held element of tree %d", what, t);
     }
 }
@@ -540,21 +580,30 @@ static int st_apply_inner(uint32_t op, int audit)
     switch (kind) {
     case K_INSERT:
         key = val;
-        if (key >= nkeys || nfree == 0) return 0;
-        /* hint protocol as used by cstl_map_insert: the parent reported by a find that missed */
-        if (flag && cnt[t][key + 1] > 0) return 0;
-        e = pool[freeids[--nfree]];
+        if (key >= nkeys || (e = take_elem(t, key)) == NULL) return 0;
         e->key = key;
         par = NULL;
         if (flag) {
+            /* documented hint protocol: the `par` reported by a find of the same key with no mutation in between,
+             * whether or not the key is already held (par is then the parent of the match; NULL = match is the
+             * root / tree empty) */
             probe->key = key;
             vrt_state("for-hint");
             VRT_OP2(is_rb ? "rbtree.find" : "bintree.find", "t%ld k%ld +par (hint)", t, key);
             par = (const void *)&cmp_token;     /* must be overwritten */
             r = (struct elem *)t_find(t, probe, &par);
-            VRT_CHECK(r == NULL, TK("find.phantom"), "find(k%d) returned %p, no held element has that key", key, (void *)r);
+            if (cnt[t][key + 1] == 0) {
+                VRT_CHECK(r == NULL, TK("find.phantom"), "find(k%d) returned %p, no held element has that key", key, (void *)r);
+                VRT_COUNT("op.insert.hinted.key-absent");
+            } else {
+                VRT_CHECK(r != NULL, TK("find.missed"), "find(k%d) returned NULL, %d held elements have that key", key, cnt[t][key + 1]);
+                VRT_CHECK(is_elem(r) && HELD(r, t), TK("find.not-held"), "find(k%d) returned a pointer that is not a held element", key);
+                VRT_CHECK(r->key == key, TK("find.wrong-key"), "find(k%d) returned e%d with key %d", key, r->id, r->key);
+                VRT_COUNT("op.insert.hinted.key-present");
+                if (par == NULL) VRT_COUNT("op.insert.hinted.key-present.match-is-root");
+            }
             VRT_CHECK(par != (const void *)&cmp_token, TK("find.par-not-written"), "find did not store the parent");
-            check_par(t, par, "miss");
+            check_par(t, par, r ? "hit" : "miss");
             VRT_COUNT("op.find");
             if (par == NULL) VRT_COUNT("op.insert.hinted.null-hint");
             VRT_COUNT("op.insert.hinted");
@@ -591,7 +640,7 @@ static int st_apply_inner(uint32_t op, int audit)
             VRT_COUNT("op.find.absent");
         } else {
             VRT_CHECK(r != NULL, TK("find.missed"), "find(k%d) returned NULL, %d held elements have that key", key, cnt[t][key + 1]);
-            VRT_CHECK(is_elem(r) && r->where == t, TK("find.not-held"), "find(k%d) returned a pointer that is not a held element", key);
+            VRT_CHECK(is_elem(r) && HELD(r, t), TK("find.not-held"), "find(k%d) returned a pointer that is not a held element", key);
             VRT_CHECK(r->key == key, TK("find.wrong-key"), "find(k%d) returned e%d with key %d", key, r->id, r->key);
             if (cnt[t][key + 1] > 1) VRT_COUNT("op.find.among-duplicates");
         }
@@ -611,12 +660,12 @@ static int st_apply_inner(uint32_t op, int audit)
             VRT_COUNT("op.erase.absent");
         } else {
             VRT_CHECK(r != NULL, TK("erase.missed"), "erase(k%d) returned NULL, %d held elements have that key", key, cnt[t][key + 1]);
-            VRT_CHECK(is_elem(r) && r->where == t, TK("erase.not-held"), "erase(k%d) returned a pointer that is not a held element", key);
+            VRT_CHECK(is_elem(r) && HELD(r, t), TK("erase.not-held"), "erase(k%d) returned a pointer that is not a held element", key);
             VRT_CHECK(r->key == key, TK("erase.wrong-key"), "erase(k%d) returned e%d with key %d", key, r->id, r->key);
             if (cnt[t][key + 1] > 1) VRT_COUNT("op.erase.among-duplicates");
             if (r == ec.victim) ecls_commit(&ec); else VRT_COUNT("erase.class-not-predicted");
             model_del(t, r);
-            recycle(r);
+            recycle(r, cls[t]);
             VRT_COUNT("op.erase");
         }
         VRT_CHECK(t_size(t) == (size_t)Mn[t], TK("erase.size"), "size %zu after erase, %d held", t_size(t), Mn[t]);
@@ -648,8 +697,10 @@ static int st_apply_inner(uint32_t op, int audit)
         memcpy(tcnt, cnt[0], (nkeys + 2) * sizeof(tcnt[0]));
         memcpy(cnt[0], cnt[1], (nkeys + 2) * sizeof(tcnt[0]));
         memcpy(cnt[1], tcnt, (nkeys + 2) * sizeof(tcnt[0]));
-        for (i = 0; i < Mn[0]; i++) M[0][i]->where = 0;
-        for (i = 0; i < Mn[1]; i++) M[1][i]->where = 1;
+        /* the tree objects exchanged everything, including the node offset they link through */
+        if (cls[0] != cls[1]) { const int c = cls[0]; cls[0] = cls[1]; cls[1] = c; VRT_COUNT("op.swap.different-offsets"); }
+        for (i = 0; i < Mn[0]; i++) { M[0][i]->where[cls[0]] = 0; M[0][i]->midx[cls[0]] = i; }
+        for (i = 0; i < Mn[1]; i++) { M[1][i]->where[cls[1]] = 1; M[1][i]->midx[cls[1]] = i; }
         VRT_COUNT("op.swap");
         break;
     }
@@ -689,12 +740,12 @@ static int st_apply(uint32_t op, int audit)
 }
 
 /* ---- signature: shape + key per node (+ colour) ---- */
-static int sig_budget;
+static int sig_budget, sig_cls;
 static uint64_t sig_node(const struct cstl_bintree_node *n)
 {
     uint64_t h;
     if (n == NULL || sig_budget-- <= 0) return 0x9e37;
-    h = vrt_mix(0x51, (uint64_t)(elem_of(n)->key + 2));
+    h = vrt_mix(0x51, (uint64_t)(elem_of(n, sig_cls)->key + 2));
     if (is_rb) h = vrt_mix(h, 3 + (uint64_t)col(n));
     h = vrt_mix(h, sig_node(n->l));
     h = vrt_mix(h, sig_node(n->r));
@@ -705,9 +756,17 @@ static uint64_t st_sig(void)
     uint64_t h = 0x7ee + is_rb;
     int t;
     for (t = 0; t < ntrees; t++) {
-        sig_budget = Mn[t] + 1;
-        h = vrt_mix(h, 0xfff0 + Mn[t]);
+        sig_budget = Mn[t] + 1; sig_cls = cls[t];
+        h = vrt_mix(h, 0xfff0 + Mn[t] + (cls[t] << 16));
         h = vrt_mix(h, sig_node(bt_of(t)->root));
+    }
+    if (mixed) {
+        /* which keys are held by both trees through one element (decides which inserts are possible) */
+        uint64_t both = 0;
+        int i;
+        for (i = 0; i < npool; i++)
+            if (pool[i]->where[0] >= 0 && pool[i]->where[1] >= 0) both += vrt_mix(0xb07, (uint64_t)pool[i]->key + 1);
+        h = vrt_mix(h, both);
     }
     return h;
 }
@@ -767,7 +826,7 @@ static void st_probe(int pi)
 static struct vex model = { st_create, st_destroy, st_apply, st_sig, st_nontrivial, 0, st_probe };
 
 /* ---- closure scopes ---- */
-struct cscope { int rb, nt, nk, np; uint64_t max_states; int max_depth; };
+struct cscope { int rb, nt, nk, np; uint64_t max_states; int max_depth; int mixed; };
 /* measured state counts (closure reached in all of them) are in the evidence as closure.states.<scope> */
 static const struct cscope order_quick[] = {
     { 0, 1, 5, 7, 400000, 100 }, { 1, 1, 5, 7, 400000, 100 },   /* ~13k / ~9k states */
@@ -777,6 +836,7 @@ static const struct cscope order_quick[] = {
     { 0, 1, 2, 12, 400000, 100 }, { 1, 1, 2, 12, 400000, 100 },
     { 0, 2, 3, 6, 400000, 100 }, { 1, 2, 3, 6, 400000, 100 },   /* two trees: swap */
     { 0, 2, 4, 5, 400000, 100 }, { 1, 2, 4, 5, 400000, 100 },
+    { 0, 2, 3, 4, 400000, 100, 1 }, { 1, 2, 3, 4, 400000, 100, 1 },     /* two trees linking through different nodes */
 };
 static const struct cscope order_thorough[] = {
     { 0, 1, 7, 7, 4000000, 200 }, { 1, 1, 7, 7, 4000000, 200 }, /* ~109k / ~52k states */
@@ -789,6 +849,8 @@ static const struct cscope order_thorough[] = {
     { 0, 2, 3, 7, 4000000, 200 }, { 1, 2, 3, 7, 4000000, 200 },
     { 0, 2, 4, 6, 4000000, 200 }, { 1, 2, 4, 6, 4000000, 200 },
     { 0, 2, 5, 5, 4000000, 200 }, { 1, 2, 5, 5, 4000000, 200 },
+    { 0, 2, 3, 5, 4000000, 200, 1 }, { 1, 2, 3, 5, 4000000, 200, 1 },
+    { 0, 2, 4, 4, 4000000, 200, 1 }, { 1, 2, 4, 4, 4000000, 200, 1 },
 };
 static const struct cscope rb_quick[] = {
     { 1, 1, 6, 7, 400000, 100 },        /* ~23k (shape, key, colour) states */
@@ -798,6 +860,7 @@ static const struct cscope rb_quick[] = {
     { 1, 1, 2, 14, 400000, 100 },
     { 1, 1, 1, 20, 400000, 100 },
     { 1, 1, 7, 6, 400000, 100 },
+    { 1, 2, 3, 4, 400000, 100, 1 },     /* two trees linking through different nodes: swap must carry `off` */
 };
 static const struct cscope rb_thorough[] = {
     { 1, 1, 8, 8, 4000000, 200 },       /* ~310k */
@@ -809,12 +872,15 @@ static const struct cscope rb_thorough[] = {
     { 1, 1, 3, 13, 4000000, 200 },
     { 1, 1, 2, 16, 4000000, 200 },
     { 1, 1, 1, 24, 4000000, 200 },
+    { 1, 2, 3, 5, 4000000, 200, 1 },
+    { 1, 2, 4, 4, 4000000, 200, 1 },
 };
 static const struct cscope clear_quick[] = {
     { 0, 1, 5, 7, 400000, 100 }, { 1, 1, 5, 7, 400000, 100 },
     { 0, 1, 6, 6, 400000, 100 }, { 1, 1, 6, 6, 400000, 100 },
     { 0, 1, 3, 9, 400000, 100 }, { 1, 1, 3, 9, 400000, 100 },
     { 0, 2, 3, 5, 400000, 100 }, { 1, 2, 3, 5, 400000, 100 },
+    { 0, 2, 3, 4, 400000, 100, 1 }, { 1, 2, 3, 4, 400000, 100, 1 },
 };
 static const struct cscope clear_thorough[] = {
     { 0, 1, 7, 7, 4000000, 200 }, { 1, 1, 7, 7, 4000000, 200 },
@@ -822,6 +888,7 @@ static const struct cscope clear_thorough[] = {
     { 0, 1, 3, 11, 4000000, 200 }, { 1, 1, 3, 11, 4000000, 200 },
     { 0, 2, 3, 6, 4000000, 200 }, { 1, 2, 3, 6, 4000000, 200 },
     { 0, 2, 4, 5, 4000000, 200 }, { 1, 2, 4, 5, 4000000, 200 },
+    { 0, 2, 3, 5, 4000000, 200, 1 }, { 1, 2, 3, 5, 4000000, 200, 1 },
 };
 static const struct cscope *scopes;
 static int nscopes;
@@ -847,11 +914,12 @@ static void run_closure(int ci)
     uint32_t al[64];
     int n = build_alphabet(s, al);
     struct vex_result r;
-    vrt_case_note("closure %s trees=%d keys=%d pool=%d alphabet=%d%s", s->rb ? "rbtree" : "bintree", s->nt, s->nk, s->np, n,
+    vrt_case_note("closure %s trees=%d%s keys=%d pool=%d alphabet=%d%s", s->rb ? "rbtree" : "bintree", s->nt,
+                  s->mixed ? "(different node offsets)" : "", s->nk, s->np, n,
                   mode == MODE_CLEAR ? " +clear probe in every state" : mode == MODE_ORDER ? " +find/foreach sweep in every state" : "");
     model.nprobes = mode == MODE_RB ? 0 : 1;
     cmp_scale = 1 + 1000 * (ci & 1);
-    vex_closure(&model, SCOPE(s->rb, s->nt, s->nk, s->np), al, n, s->max_states, s->max_depth, &r);
+    vex_closure(&model, SCOPE(s->rb, s->nt, s->nk, s->np) | (s->mixed ? SCOPE_MIXED : 0), al, n, s->max_states, s->max_depth, &r);
     VRT_COUNT_N("closure.states", r.states);
     VRT_COUNT_N("closure.transitions", r.transitions);
     VRT_COUNT_N("closure.replayed-ops", r.applied);
@@ -861,7 +929,8 @@ static void run_closure(int ci)
     if (r.closed) VRT_COUNT("closure.scopes-closed"); else VRT_COUNT("closure.scopes-capped");
     {
         char nm[64];
-        snprintf(nm, sizeof(nm), "closure.states.%s.trees%d.keys%d.pool%d", s->rb ? "rbtree" : "bintree", s->nt, s->nk, s->np);
+        snprintf(nm, sizeof(nm), "closure.states.%s.trees%d%s.keys%d.pool%d", s->rb ? "rbtree" : "bintree", s->nt,
+                 s->mixed ? "-two-offsets" : "", s->nk, s->np);
         vrt_count_dyn(nm, r.states);
     }
 }
@@ -880,10 +949,11 @@ static void run_random(uint64_t idx)
     static const int keys_order[] = { 1, 2, 2, 3, 3, 4, 8, 16, 64 };
     static const int keys_rb[] = { 1, 2, 3, 4, 8, 16, 64, 256, 4096 };
     vrt_rng g;
-    int rb, nt, nk, np, nops, i, phase = PH_MIXED, phase_left = 0, seq = 0, lo = 0, hi = 0, every;
+    int rb, nt, nk, np, nops, i, phase = PH_MIXED, phase_left = 0, seq = 0, lo = 0, hi = 0, every, mx;
     vrt_rng_seed(&g, vrt_seed, 0xC01000 + idx);
     rb = mode == MODE_RB ? 1 : (int)(idx & 1);
     nt = vrt_chance(&g, 1, 5) ? 2 : 1;
+    mx = nt == 2 && vrt_chance(&g, 1, 2);       /* the two trees link through different nodes */
     if (mode == MODE_RB) {
         const int c = vrt_below(&g, 8);
         np = c < 3 ? 8 + vrt_below(&g, 56) : c < 5 ? 64 + vrt_below(&g, 193) : c < 7 ? 257 + vrt_below(&g, 768) : 2048 + vrt_below(&g, 2049);
@@ -901,11 +971,14 @@ static void run_random(uint64_t idx)
     if (mc_mode) { if (np > 96) np = 32 + np % 64; nops = 800; every = np <= 16 ? 1 : 16; }
     if (nk > np) nk = np;
     cmp_scale = vrt_chance(&g, 1, 2) ? 1 : 1 + (int)vrt_below(&g, 100000);
-    vrt_case_note("random %s trees=%d keys=%d pool=%d ops=%d audit-every=%d", rb ? "rbtree" : "bintree", nt, nk, np, nops, every);
-    st_create(SCOPE(rb, nt, nk, np));
+    vrt_case_note("random %s trees=%d%s keys=%d pool=%d ops=%d audit-every=%d", rb ? "rbtree" : "bintree", nt,
+                  mx ? "(different node offsets)" : "", nk, np, nops, every);
+    st_create(SCOPE(rb, nt, nk, np) | (mx ? SCOPE_MIXED : 0));
+    if (mx) VRT_COUNT("random.histories.two-offsets");
     for (i = 0; i < nops; i++) {
         const int t = nt == 2 && vrt_chance(&g, 1, 3) ? 1 : 0;
-        const int audit = (i % every) == 0;
+        /* rb mode: the rules are checked after every call while the trees hold <= 256 elements, every 8th call above */
+        const int audit = (i % every) == 0 || (mode == MODE_RB && Mn[0] + (nt > 1 ? Mn[1] : 0) <= 256);
         int r = vrt_below(&g, 100), key, done = 0;
         uint32_t op;
         if (phase_left-- <= 0) {
@@ -916,7 +989,6 @@ static void run_random(uint64_t idx)
             vrt_count_dyn(phase_ctr[phase], 1);
         }
         if (phase >= PH_FILL_ASC && phase <= PH_FILL_RANDOM && r < 80) {
-            if (nfree == 0) { phase_left = 0; continue; }
             switch (phase) {
             case PH_FILL_ASC: key = (int)((long)seq * nk / np); break;
             case PH_FILL_DESC: key = nk - 1 - (int)((long)seq * nk / np); break;
@@ -929,8 +1001,9 @@ static void run_random(uint64_t idx)
             seq++;
             if (key < 0) key = 0;
             if (key >= nk) key = nk - 1;
-            op = OP(K_INSERT, t, cnt[t][key + 1] == 0 && vrt_chance(&g, 1, 2), key);
+            op = OP(K_INSERT, t, vrt_chance(&g, 1, 2), key);
             done = st_apply(op, audit);
+            if (!done) { phase_left = 0; continue; }    /* no element left for this tree: next phase */
         } else if (phase >= PH_DRAIN_ALT && r < 80) {
             if (Mn[t] == 0) { phase_left = 0; continue; }
             switch (phase) {
@@ -961,7 +1034,7 @@ static void run_random(uint64_t idx)
         r = vrt_below(&g, 100);
         if (r < 32) {
             key = vrt_below(&g, nk);
-            op = OP(K_INSERT, t, cnt[t][key + 1] == 0 && vrt_chance(&g, 2, 3), key);
+            op = OP(K_INSERT, t, vrt_chance(&g, 1, 2), key);
         } else if (r < 60) {
             key = (Mn[t] > 0 && vrt_chance(&g, 3, 4)) ? M[t][vrt_below(&g, Mn[t])]->key : (int)vrt_below(&g, nk + 2) - 1;
             op = OP(K_ERASE, t, 0, key + 1);
@@ -983,7 +1056,8 @@ static void run_random(uint64_t idx)
         }
         st_apply(op, audit);
 next:
-        if (audit && (every > 1 || (i & 7) == 0) && Mn[0] + (nt > 1 ? Mn[1] : 0) >= 2) vrt_sig(0, st_sig());
+        /* coverage accounting only: sample the state signature at (a subset of) the audit points */
+        if (audit && ((i & 7) == 0 || (mode != MODE_RB && every > 1)) && Mn[0] + (nt > 1 ? Mn[1] : 0) >= 2) vrt_sig(0, st_sig());
         VRT_MAX("max.random.tree-size", Mn[t]);
     }
     audit_all();
@@ -1006,13 +1080,14 @@ static void run_random_clear(uint64_t idx)
     nk = pick(&g, keys, 6);
     if (nk > np) nk = np;
     cmp_scale = 1;
-    vrt_case_note("random-clear %s keys=%d pool=%d", rb ? "rbtree" : "bintree", nk, np);
-    st_create(SCOPE(rb, 2, nk, np));
+    if (idx & 2) np = 16 + np % 500;
+    vrt_case_note("random-clear %s keys=%d pool=%d%s", rb ? "rbtree" : "bintree", nk, np, (idx & 2) ? " (different node offsets)" : "");
+    st_create(SCOPE(rb, 2, nk, np) | ((idx & 2) ? SCOPE_MIXED : 0));
     n = np / 2 + vrt_below(&g, np / 2);
     for (i = 0; i < n; i++) {
         const int key = vrt_below(&g, nk);
         t = vrt_chance(&g, 1, 8);
-        st_apply(OP(K_INSERT, t, cnt[t][key + 1] == 0, key), 0);
+        st_apply(OP(K_INSERT, t, vrt_chance(&g, 1, 2), key), 0);
         if (vrt_chance(&g, 1, 5) && Mn[t] > 0) st_apply(OP(K_ERASE, t, 0, M[t][vrt_below(&g, Mn[t])]->key + 1), 0);
     }
     audit_all();
@@ -1087,7 +1162,9 @@ static void wfini(void)
 }
 
 static const char *const required_order[] = {
-    "op.insert", "op.insert.hinted", "op.insert.hinted.null-hint", "op.insert.duplicate-key",
+    "op.insert", "op.insert.hinted", "op.insert.hinted.null-hint", "op.insert.hinted.key-absent",
+    "op.insert.hinted.key-present", "op.insert.hinted.key-present.match-is-root", "op.insert.duplicate-key",
+    "op.swap.different-offsets", "recycle.node-only.still-in-other-tree",
     "op.find", "op.find.par", "op.find.absent", "op.find.among-duplicates",
     "op.erase", "op.erase.absent", "op.erase.among-duplicates", "op.clear", "op.swap",
     "op.foreach.fwd", "op.foreach.rev", "op.foreach.early-stop",
@@ -1098,7 +1175,8 @@ static const char *const required_order[] = {
     "probe.observe", "audit.tree", NULL
 };
 static const char *const required_rb[] = {
-    "op.insert", "op.insert.hinted", "op.insert.duplicate-key", "op.erase", "op.erase.among-duplicates",
+    "op.insert", "op.insert.hinted", "op.insert.hinted.key-absent", "op.insert.hinted.key-present",
+    "op.insert.duplicate-key", "op.erase", "op.erase.among-duplicates", "op.swap", "op.swap.different-offsets",
     "audit.rb-rules",
     "insert.rb.parent-black", "insert.rb.parent-red.uncle-red", "insert.rb.parent-red.uncle-black.outer",
     "insert.rb.parent-red.uncle-black.inner",
@@ -1110,6 +1188,7 @@ static const char *const required_rb[] = {
 };
 static const char *const required_clear[] = {
     "op.clear", "clear.handed-over", "probe.clear-then-reuse", "closure.states.bintree", "closure.states.rbtree",
+    "recycle.node-only.still-in-other-tree",
     "random.clear-large", "op.insert", "op.erase", NULL
 };
 static const char *const required_mc[] = {
